@@ -37,7 +37,7 @@ prop('C02',
      technique='linear normal forms of integer expressions; reader/writer key agreement')
 
 prop('C03',
-     rules=['TBL-ATTRS', ('TBL-OUTPUT', ['output_stream', 'markup.format.utils']), 'OWN-TOKTREE', 'TBL-CONVERT', ('TAB-MEMBER', ['markup', 'abbreviation']), 'OWN-CACHEUSE', ('COV-MERGE', ['markup.snippets']), 'TAB-OPS', 'TAB-BRK', 'TAB-QUOTE', 'TAB-KEYS-OPT', 'DEC-BOOL', 'DEC-MERGEDECL', 'DEC-MULTIVALUE', 'SIB-CARET', 'SIB-QUOTE', 'OWN-ASTLIST', 'PATH-EMIT-ATTR', ('PATH-INITORDER', ['abbreviation', 'markup'])],
+     rules=[('TBL-CONFIG', ['config']), 'ORD-MERGE', 'TBL-ATTRS', ('TBL-OUTPUT', ['output_stream', 'markup.format.utils']), 'OWN-TOKTREE', 'TBL-CONVERT', ('TAB-MEMBER', ['markup', 'abbreviation']), 'OWN-CACHEUSE', ('COV-MERGE', ['markup.snippets']), 'TAB-OPS', 'TAB-BRK', 'TAB-QUOTE', 'TAB-KEYS-OPT', 'DEC-BOOL', 'DEC-MERGEDECL', 'DEC-MULTIVALUE', 'SIB-CARET', 'SIB-QUOTE', 'OWN-ASTLIST', 'PATH-EMIT-ATTR', ('PATH-INITORDER', ['abbreviation', 'markup'])],
      explanation='Shorthand/bracket/quote characters agree with token kinds and with what is printed back inside values (D); option names '
                  'exist (D); boolean / implied / quote / case decisions are extracted as complete decision tables (N).',
      not_decided=['merge results for arbitrary orders and duplicates, reverse mode, name mapping (value-level)'],
@@ -51,7 +51,7 @@ prop('C04',
      technique='visitor exhaustiveness and table agreement')
 
 prop('C05',
-     rules=['TBL-CSSABBR', ('TBL-CONFIG', ['stylesheet.resolve_gradient', 'stylesheet.wrap_with_field', 'stylesheet.has_field']), ('TBL-NUMBER', ['css_abbreviation']), 'TBL-CSSVALUE', ('NUM-LEFTPAD', ['stylesheet', 'css_abbreviation']), 'NUM-SHORTHEX', 'NUM-FRAC', 'DEC-UNIT', 'TAB-UNITS', 'TAB-CSSOPS', 'TAB-KEYS-OPT', ('EXC-NUMCONV', ['css_abbreviation', 'stylesheet']), ('EXC-FMT', ['stylesheet']), ('CNT-DEPTH', ['css_abbreviation']), ('DEC-CHARCLASS', ['css_abbreviation', 'scanner_utils']), ('OWN-GLOBAL', ['stylesheet'])],
+     rules=[('TBL-CONFIG', ['config']), 'ORD-MERGE', 'TBL-CSSABBR', ('TBL-CONFIG', ['stylesheet.resolve_gradient', 'stylesheet.wrap_with_field', 'stylesheet.has_field']), ('TBL-NUMBER', ['css_abbreviation']), 'TBL-CSSVALUE', ('NUM-LEFTPAD', ['stylesheet', 'css_abbreviation']), 'NUM-SHORTHEX', 'NUM-FRAC', 'DEC-UNIT', 'TAB-UNITS', 'TAB-CSSOPS', 'TAB-KEYS-OPT', ('EXC-NUMCONV', ['css_abbreviation', 'stylesheet']), ('EXC-FMT', ['stylesheet']), ('CNT-DEPTH', ['css_abbreviation']), ('DEC-CHARCLASS', ['css_abbreviation', 'scanner_utils']), ('OWN-GLOBAL', ['stylesheet'])],
      explanation='Hex printing (left padding, short form only when r, g and b allow it, r-g-b order) is decided over all 256 channel values (D); '
                  'the unit decision is extracted as a complete table (N); alias/unit/separator tables are the documented ones (D).',
      not_decided=['tokenisation of number/unit/dash/colour sequences', 'frac() rounding beyond the conversion type'],
@@ -110,7 +110,7 @@ prop('C11',
      technique='clamp dominance; table agreement')
 
 prop('C12',
-     rules=[('TBL-OUTPUT', ['output_stream', 'markup.format.comment', 'markup.format.utils']), 'TBL-LINES', ('OWN-GLOBAL', ['markup.format', 'output_stream']), 'TAB-SELFCLOSE', 'ACC-WRITER', 'TAB-KEYS-OPT', 'OWN-RAWPUSH', 'SIB-SPLITLINES', 'PATH-LEVEL', 'PATH-EMIT-HTML', 'OWN-FMT-RO', 'OWN-ASTLIST',
+     rules=[('TBL-CONFIG', ['config']), 'ORD-MERGE', ('TBL-OUTPUT', ['output_stream', 'markup.format.comment', 'markup.format.utils']), 'TBL-LINES', ('OWN-GLOBAL', ['markup.format', 'output_stream']), 'TAB-SELFCLOSE', 'ACC-WRITER', 'TAB-KEYS-OPT', 'OWN-RAWPUSH', 'SIB-SPLITLINES', 'PATH-LEVEL', 'PATH-EMIT-HTML', 'OWN-FMT-RO', 'OWN-ASTLIST',
             'INF-FORMAT', 'INF-LEVEL', 'INF-COMMENT', 'INF-SELFCLOSE'],
      explanation='Self-closing style decides only the characters before > (D); newline/indent emission is newline + baseIndent + level*indent (D).',
      not_decided=['should_format\'s choice of where to break'],
@@ -125,27 +125,27 @@ prop('C13',
      assumptions=['strings handed to raw push() contain no newline'])
 
 prop('C14',
-     rules=[('TBL-CONFIG', ['config']), ('TBL-ATTRS', ['markup.attributes']), 'COV-MERGE', 'TAB-SNIPKEYS', ('PATH-STACK', ['markup.snippets', 'markup.utils']), 'OWN-CACHEUSE'],
+     rules=['ORD-MERGE', ('TBL-CONFIG', ['config']), ('TBL-ATTRS', ['markup.attributes']), 'COV-MERGE', 'TAB-SNIPKEYS', ('PATH-STACK', ['markup.snippets', 'markup.utils']), 'OWN-CACHEUSE'],
      explanation='All data written on an alias (attributes, text, repeater, self-closing mark) is transferred to every top-level node of the definition and '
                  'children go to the last-child chain (N); multi-key tables do not shadow each other (D).',
      not_decided=['"expands exactly like its definition" (value-level)'],
      technique='field coverage; splice shape')
 
 prop('C15',
-     rules=[('TBL-OUTPUT', ['output_stream', 'markup.format.utils']), 'TBL-LINES', 'INF-FMTREADERS', ('TAB-MEMBER', ['markup.format']), 'TBL-INDENT', 'TAB-KEYS-PROFILE', 'TAB-FORMATTERS', 'SIB-CARET', 'SIB-SPLITLINES', 'OWN-RAWPUSH', 'PATH-LEVEL', 'PATH-EMIT-INDENT', 'INF-LEVEL', 'PATH-EMIT-ATTR'],
+     rules=[('TBL-CONFIG', ['config']), 'ORD-MERGE', ('TBL-OUTPUT', ['output_stream', 'markup.format.utils']), 'TBL-LINES', 'INF-FMTREADERS', ('TAB-MEMBER', ['markup.format']), 'TBL-INDENT', 'TAB-KEYS-PROFILE', 'TAB-FORMATTERS', 'SIB-CARET', 'SIB-SPLITLINES', 'OWN-RAWPUSH', 'PATH-LEVEL', 'PATH-EMIT-INDENT', 'INF-LEVEL', 'PATH-EMIT-ATTR'],
      explanation='Profile keys read by subscript exist in all three profiles and carry the documented punctuation (D); each syntax reaches its formatter (D).',
      not_decided=['tree equality with the HTML output; layout of multi-line text'],
      technique='reader/writer key agreement')
 
 prop('C16',
-     rules=['SCN-CORE', ('SCN-OVER', MATCH_MODS), ('SCN-PROGRESS', MATCH_MODS), ('SCN-REST', MATCH_MODS), ('SCN-SKIP', MATCH_MODS), ('SCN-BLIND', MATCH_MODS), 'SIB-VOID', 'RNG-TRIM', 'RNG-ORDER', ('DEC-CHARCLASS', ['html_matcher', 'css_matcher', 'scanner_utils']),
+     rules=[('SIB-QUOTE', ['css_matcher', 'html_matcher', 'scanner_utils']), 'SCN-CORE', ('SCN-OVER', MATCH_MODS), ('SCN-PROGRESS', MATCH_MODS), ('SCN-REST', MATCH_MODS), ('SCN-SKIP', MATCH_MODS), ('SCN-BLIND', MATCH_MODS), 'SIB-VOID', 'RNG-TRIM', 'RNG-ORDER', ('DEC-CHARCLASS', ['html_matcher', 'css_matcher', 'scanner_utils']),
             ('PATH-FLAG', MATCH_MODS), ('CNT-DEPTH', MATCH_MODS), ('RNG-STOP', MATCH_MODS), 'RNG-SCANSTATE', ('RNG-FRAME', ['html_matcher']), 'SIB-HTMLSTACK', 'SIB-ESCAPE', 'SCN-ESCAPE', 'RNG-SENT', 'RNG-STRICT/html', 'RNG-STRICT/css', 'EXC-RAISE/matcher', 'EXC-THROWS', 'TBL-HTMLSCAN', 'TBL-CSSSCAN'],
      explanation='No explicit raise is reachable from the matchers (D); sentinel arithmetic guarded (N); strict containment (N).',
      not_decided=['relational clauses between match / balanced_outward / balanced_inward beyond predicate agreement'],
      technique='call-graph reachability; sentinel-flow analysis')
 
 prop('C17',
-     rules=[('OWN-AMBIENT', ['action_utils', 'html_matcher', 'css_matcher']), ('OWN-GLOBAL', ['action_utils', 'html_matcher', 'css_matcher']), ('RNG-SENT', ['action_utils']), 'RNG-STRICT/actions', 'EXC-RAISE/matcher', ('SCN-OVER', ['action_utils', 'css_matcher.parse', 'html_matcher.attributes']), ('SCN-PROGRESS', ['action_utils', 'css_matcher.parse', 'html_matcher.attributes']),
+     rules=[('SIB-QUOTE', ['css_matcher', 'html_matcher', 'scanner_utils']), ('OWN-AMBIENT', ['action_utils', 'html_matcher', 'css_matcher']), ('OWN-GLOBAL', ['action_utils', 'html_matcher', 'css_matcher']), ('RNG-SENT', ['action_utils']), 'RNG-STRICT/actions', 'EXC-RAISE/matcher', ('SCN-OVER', ['action_utils', 'css_matcher.parse', 'html_matcher.attributes']), ('SCN-PROGRESS', ['action_utils', 'css_matcher.parse', 'html_matcher.attributes']),
             ('CNT-DEPTH', ['css_matcher.parse', 'action_utils']), 'RNG-TRIM', ('RNG-STOP', ['action_utils']), 'RNG-FRAME', ('DEC-CHARCLASS', ['html_matcher', 'css_matcher', 'scanner_utils']), ('SIB-HTMLSTACK', ['action_utils']), ('PIN-EXTRACT', ['action_utils']), 'TBL-ACTIONS', ('TBL-HTMLSCAN', ['html_matcher.attributes']), ('TBL-CSSSCAN', ['css_matcher.parse'])],
      explanation='The after offset of a declaration without ; and the open-tag containment test (N).',
      not_decided=['next/previous item selection logic'],
